@@ -21,7 +21,7 @@ def _alarm(signum, frame):
     raise XTimeout()
 
 
-def apply_transform(fn, limit: int = 4):
+def apply_transform(fn, limit: int = 20):
     """Runs a transform thunk under a wall-clock guard.  ('ok', Function) | ('declined', msg) | ('timeout', '')"""
     signal.signal(signal.SIGALRM, _alarm)
     signal.setitimer(signal.ITIMER_REAL, limit, 1.0)      # keeps firing if the first one is swallowed
@@ -54,7 +54,9 @@ def make_pairs(progs_src, configs, rng, nvec: int, stats: Counter, vectors_fn=No
             continue
         seen = {fn.format()}
         nto = 0
-        for (cname, tf) in configs:
+        for cfg in configs:
+            cname, tf = cfg[0], cfg[1]
+            pred = cfg[2] if len(cfg) > 2 else None
             if nto >= 2:
                 break               # this program sends the transform into a loop; two witnesses are enough
             st, res = apply_transform(lambda: tf(fn))
@@ -73,26 +75,41 @@ def make_pairs(progs_src, configs, rng, nvec: int, stats: Counter, vectors_fn=No
                 stats['unchanged-or-duplicate'] += 1
                 continue
             seen.add(text)
+            if text is not None and len(text) > 40000:
+                stats['xform-too-large'] += 1      # nested unrolling blows the program up; nothing to learn from it
+                continue
             try:
                 xp, _ = export_program(res, pid)
             except (Unsupported, OutOfDomain) as e:
                 stats['xform-unsupported'] += 1
                 continue
             # same input vectors as the original (those that were exportable)
+            # first call compiles the function: do it outside the per-input time limit
+            if vec:
+                progrun.run_real(res, vec[0][0], vec[0][1], limit=60)
             xins = []
+            keep = []
+            j = 0
             for (args, ctx) in vec:
                 try:
                     aj = [progrun.value_json(a) for a in args]
                 except (OutOfDomain, Unsupported):
                     continue
+                j += 1
+                if pred is not None and not pred(args):
+                    continue            # outside the stated precondition of this configuration
+                keep.append(j - 1)
                 out = progrun.run_real(res, args, ctx)
                 if 'ood' in out:
                     out = {'err': 'OutOfDomainValue'}
                 xins.append({'args': aj, 'ctx': [] if ctx is None else [progrun.ctx_json(ctx)], 'out': out})
-            if len(xins) != len(base['inputs']):
+            if j != len(base['inputs']):
                 stats['input-mismatch'] += 1
                 continue
+            if not xins:
+                continue
             o = dict(base)
+            o['inputs'] = [base['inputs'][i] for i in keep]
             o['pid'] = pid
             xp['pid'] = pid
             xp['inputs'] = xins
@@ -145,7 +162,7 @@ def run_equiv(pairs, timeout: int = 3000):
         shutil.rmtree(work, ignore_errors=True)
 
 
-def report(rep: core.Report, pairs, timeouts, mm, skips, stats, extra_key=None):
+def report(rep: core.Report, pairs, timeouts, mm, skips, stats, extra_key=None, precondition_error=None):
     by = {o['pid']: (o, x, meta) for (o, x, meta) in pairs}
     skips = list(skips)
     for (pid, idx, clause, merr) in mm:
@@ -153,6 +170,11 @@ def report(rep: core.Report, pairs, timeouts, mm, skips, stats, extra_key=None):
         if clause == 'model-raises' and merr in ('TypeError', 'ValueError') and progrun.has_big(o['inputs'][idx - 1]['args']):
             skips.append((pid, idx, 'skip', 'WideValue'))
             continue
+        if precondition_error is not None and clause in ('model-raises', 'code-raises'):
+            err = merr if clause == 'model-raises' else x['inputs'][idx - 1]['out'].get('err', '')
+            if precondition_error(meta, err):
+                skips.append((pid, idx, 'skip', 'PreconditionNotMet'))
+                continue
         key = {'clause': clause, 'config': meta['config']}
         if extra_key:
             key.update(extra_key(meta, clause))
